@@ -651,7 +651,41 @@ def r14(ctx):
         raise AnalysisBroken('C13.R14: only %d copies of the update time into the change time found' % n)
 
 
+def r16(ctx):
+    ctx.rule('C13.R16', 'a guarded definition creates a guarded message, whatever its kind: every message object that '
+             'Message::create constructs (plain or chained) is handed the condition parameter of create as an explicit '
+             'argument - a constructor parameter with a default '
+             'value (Condition* condition = nullptr) compiles without the argument and leaves a chained message of a '
+             'conditional definition always available', minimum=2)
+    fb = ctx.fb
+    fn = fb.fn('ebusd::Message::create')
+    ctx.touch(fn)
+    cond = [p_['name'] for p_ in fn.params if 'Condition' in (p_.get('t') or '')]
+    if len(cond) != 1:
+        raise AnalysisBroken('C13.R16: the condition parameter of Message::create was not recognised')
+    sites = []
+    for x, v in sorted(fn.nodes.items()):
+        if v['k'] == 'CXXNewExpr' and (v.get('newt') or '').endswith('Message') and v.get('init') is not None:
+            ce = fn.nodes[fn.strip(v['init'], casts=True)]
+            keys = [fn.key(a) for a in ce.get('args', []) if fn.nodes[fn.strip(a, casts=True)].get('k') != 'CXXDefaultArgExpr']
+            sites.append((x, v['newt'], keys))
+    if len(sites) < 2:
+        raise AnalysisBroken('C13.R16: the constructions of Message and ChainedMessage in Message::create were not found')
+    common_args = None
+    for x, t, keys in sites:
+        common_args = set(keys) if common_args is None else common_args | set(keys)
+    for x, t, keys in sites:
+        has = cond[0] in keys
+        # what a sibling is handed and this one is not (beyond the arguments that only one kind has)
+        ctx.ob('C13.R16', fn, x, has, 'new %s in Message::create' % t.split('::')[-1],
+               'is handed the condition of the definition: %s' % has)
+
+
 def run(ctx):
+    r16(ctx)
+    import rules.common as _cmw
+    ctx.rule('C13.R15', 'a 64 bit key or time stays 64 bit: where the sources of this property call a repository function declared to return uint64_t (message and answer keys, the millisecond clock), the result is not converted implicitly to a narrower integer at the call - a key held in an unsigned int loses ID length, source, destination and command bytes and never matches a stored key again', minimum=6)
+    _cmw.wide_result_rule(ctx, 'C13.R15', lambda f: f.relfile.startswith(('src/lib/ebus/message.',)), 6)
     r14(ctx)
     r13(ctx)
     r12(ctx)
